@@ -1,12 +1,14 @@
 """C06 only authorised transactions change state.  Auth.tla defines what "the holders authorised exactly this content"
-means for a case (account configuration x signature sequence x field changed after signing x gas payer (another account / the
-sender account itself) x box (as signed / its JSON data re-written after signing) x kind)
-and a model of the node's decision procedure; TLC enumerates the case space and checks the clauses of the property on
-every case.  Every case is instantiated as a REAL signed transaction (real keys, real signing hashes, real
-multi-signature accounts configured by real ModifySignersTx) and handed to a real mining node and, inside a block
-(the miner's, or the one a dishonest deputy would publish when the miner refuses), to a second real node; what the
-nodes did and what changed in the real account state is validated by TLC against the monitor TraceAuth.tla."""
-import json, os
+means for a case (account configuration x signature sequence - every signature with the scheme it was made in, the account in
+whose name it was made and whether it was made before or after the change - x field changed after signing x gasPayer member
+(absent / the sender / another account / a second one; when signed and as submitted) x box (as signed / its JSON data re-written
+after signing) x kind x signers of the last stable block vs current signers) and a model of the node's decision procedure; TLC
+enumerates the case space and checks the clauses of the property on every case.  Every case is instantiated as a REAL signed
+transaction (real keys, real signing hashes, real multi-signature accounts configured by real ModifySignersTx) and handed to a
+real mining node and, inside a block (the miner's, or the one a dishonest deputy would publish when the miner refuses), to a
+second real node; what the nodes did and what changed in the real account state is validated by TLC against the monitor
+TraceAuth.tla."""
+import concurrent.futures, json, os, time
 import vlib
 os.environ.setdefault("VERIF_TLC_HEAP", "3g")      # the case space is small; do not compete for memory with parallel checks
 LEVEL = "model_checking"
@@ -14,21 +16,31 @@ LEVEL = "model_checking"
 MANIFEST = dict(
     level="model_checking",
     text="TLC enumerates every authorisation case within bounds - plain account and every multi-signature configuration of up to 3 signers "
-         "with weights from {1,49,50,51,100} (total >= 100; plus two 4-signer accounts), every sequence of up to 3 signatures by registered signers / "
+         "with weights from {1,49,50,51,100} (total >= 100; plus two 4-signer accounts and one with rotated keys), every sequence of up to 3 signatures by registered signers / "
          "the account's own key / a foreign key in both signature encodings, malformed signature bytes, each of 12 signed fields changed after any "
          "subset of an honest signature set was made, reimbursed-gas transactions (plain and multi-signature payer; payer signatures missing / foreign / "
          "repeated / made before gas terms, payer field or sender signatures changed), the same reimbursed form naming the sender account itself as "
-         "gas payer (plain and multi-signature, all payer-side tamper classes), box-wrapped transactions (also reimbursed ones, and a box signed "
+         "gas payer (plain and multi-signature, all payer-side tamper classes); WHAT EACH SIGNATURE COMMITS TO per signing scheme (default: every field; "
+         "reimbursement: every field but the gas terms; gas payer: sender signature bytes + gas terms): for each value of the gasPayer member (absent / the "
+         "sender / another account / a second other account) when signed and each value as submitted (member dropped, added, pointed elsewhere, payer swapped) "
+         "and for each other field changed instead - sender signatures made in either sender scheme before / after the change, payer signatures absent / by the "
+         "holders of the account named before / of the one named now, before / after the change; sender signatures copied into the payer list and payer-scheme "
+         "signatures in the sender list; the same for box sub-transactions (changed before / after the box sender signed) and for votes; "
+         "box-wrapped transactions (also reimbursed ones, and a box signed "
          "by a foreign key), boxes whose JSON data was re-written after the box sender signed (sub-transaction field changed, re-signed by its own "
          "holders or not, signature replaced, gas terms raised by the payer; \"hash\" member true / absent / that of the replaced sub-transaction / "
-         "arbitrary), vote and asset-creation transactions and re-configurations of the signers - and checks thirteen clauses on each (effect only if "
-         "authorised, canonical accepted, repetition / foreign keys / removal never help, encoding irrelevant, tampering falsifies, payer binds, exact "
+         "arbitrary), vote and asset-creation transactions, re-configurations of the signers, and - while a re-configuration sits in a recent block that is "
+         "not stable yet - every subset of the FORMER signers and of the new ones signing (also as gas payer, also to put themselves back), until the "
+         "deputies confirm the block - and checks fifteen clauses on each (effect only if "
+         "authorised, canonical accepted, repetition / foreign keys / removal never help, encoding irrelevant, tampering falsifies per scheme, the gasPayer "
+         "member binds, a signature of one scheme or role does not authorise in another, payer binds, exact "
          "threshold, re-configuration iff packaged, every changed field covered by a later signature, box binds its sub-transactions, JSON hash label "
-         "irrelevant). Every case is replayed as a real signed transaction on a real mining node (MineBlock) and, in a block, "
-         "on a second real node (InsertBlock; forged block with the executed state roots when the miner refused); TLC validates every logged outcome and "
-         "account-state delta against the monitor: any effect => Authorized for the really registered signers, canonical authorised => packaged and "
-         "accepted, effect = that of the submitted content, refusal changes nothing. A seeded driver does the same for random large accounts "
-         "(up to 100 signers, weights 1..100, up to 110 signatures).",
+         "irrelevant); six wrong decision procedures are negative controls. Every case is replayed as a real signed transaction on a real mining node (MineBlock) and, in a block, "
+         "on a second real node (InsertBlock; forged block with the executed state roots when the miner refused); each behaviour has its own pair of nodes on which the block "
+         "configuring the sender is stable (InsertConfirms); TLC validates every logged outcome and "
+         "account-state delta against the monitor: any effect => Authorized for the signers registered NOW, canonical authorised => packaged and "
+         "accepted, effect = that of the submitted content paid by the account the submitted gasPayer member makes pay, refusal changes nothing. A seeded driver does the same for random large accounts "
+         "(up to 100 signers, weights 1..100, up to 110 signatures; also gasPayer member dropped / added / swapped and signatures of the other scheme).",
     note="One genuine defect was found and repaired in /repo (checkSignersWeight added a signer's weight once per signature; fix: commit in known_findings.txt); the "
          "named deviation Dev_MultisigCountsRepeatedSigner stays in the spec (design-side negative control) and would be accepted only if listed again. "
          "The arrival check of real nodes (VerifyTxBody) is applied before the miner, with the parent block's time as 'now'.",
@@ -40,15 +52,34 @@ DEV = "Dev_MultisigCountsRepeatedSigner"
 def stats(files):
     """Plain counts over the recorded lines (for the evidence file and the vacuity gate; no judgement)."""
     st = dict(offers=0, packaged=0, refused=0, intake_refused=0, validator_honest_ok=0, validator_forged=0, validator_forged_accepted=0,
-              packaged_carrying_a_repeated_signer=0)
+              packaged_carrying_a_repeated_signer=0, gaspayer_member_absent=0, gaspayer_member_absent_packaged=0,
+              gaspayer_member_changed_after_signing=0, gaspayer_member_changed_packaged=0, signature_made_in_another_scheme=0,
+              offered_while_signers_differ_from_stable_block=0, of_these_packaged=0, stabilised=0, real_code_failures=0)
     for f in files:
         for ln in open(f):
             e = json.loads(ln)
-            if e["ev"] == "Offer":
+            if "panic" in e:
+                st["real_code_failures"] += 1
+                continue
+            if e["ev"] == "Stabilise":
+                st["stabilised"] += 1
+            if e["ev"] in ("Offer", "OfferStale"):
                 st["offers"] += 1
                 st["packaged" if e["packaged"] else "refused"] += 1
                 st["intake_refused"] += 0 if e["intake"] else 1
                 c = e["a"][0]
+                if c["gp"] == "absent":
+                    st["gaspayer_member_absent"] += 1
+                    st["gaspayer_member_absent_packaged"] += 1 if e["packaged"] else 0
+                if c["gp"] != c["gp0"]:
+                    st["gaspayer_member_changed_after_signing"] += 1
+                    st["gaspayer_member_changed_packaged"] += 1 if e["packaged"] else 0
+                form = "reimb" if c["psigs"] else "default"
+                if any(s["sch"] != form for s in c["sigs"]) or any(s["sch"] != "payer" for s in c["psigs"]):
+                    st["signature_made_in_another_scheme"] += 1
+                if e["scfg"] != e["cfg"]:
+                    st["offered_while_signers_differ_from_stable_block"] += 1
+                    st["of_these_packaged"] += 1 if e["packaged"] else 0
                 for k in ("sigs", "psigs"):
                     by = [s["by"] for s in c[k]]
                     if e["packaged"] and len(by) != len(set(by)):
@@ -69,39 +100,56 @@ def run(ctx):
     # ---- design side: the clauses hold on every enumerated case (deviation off) ...
     dot = ctx.path("auth.dot")
     r = ctx.tlc_exhaustive("MCAuth", "MCAuth_%s.cfg" % tier, timeout=1500, dump=dot)
-    # ... and the model of the defect violates them (negative control)
-    neg = ctx.tlc("MCAuth", "MCAuth_neg.cfg", timeout=300, expect_ok=False)
-    ctx.extra["negative_control_per_signature_weights_violates"] = neg["inv"]
-    if not neg["inv"]:
-        raise vlib.Broken("negative control: the model with %s on must violate a clause\n%s" % (DEV, neg["out"][-2000:]))
-    # ... and so do two wrong decision procedures in the areas "the sender reimburses itself" and "re-written box data"
-    for cfg, model, clause in (("MCAuth_neg_own.cfg", "Neg_OwnPayerUnchecked", "ChangeCovered"), ("MCAuth_neg_box.cfg", "Neg_BoxTrustsLabel", "BoxBinds")):
-        n2 = ctx.tlc("MCAuth", cfg, timeout=300, expect_ok=False)
-        ctx.extra["negative_control_%s_violates" % model] = n2["inv"]
-        if n2["inv"] != clause:
-            raise vlib.Broken("negative control: the model %s must violate %s\n%s" % (model, clause, n2["out"][-2000:]))
+    # ... and the model of the defect violates them (negative control); so do five wrong decision procedures in the areas "the sender
+    # reimburses itself", "re-written box data", "a signing hash that does not tell an absent gasPayer member from one naming the sender",
+    # "sender signatures read without regard to the scheme they were made in", "the signers of the last stable block are consulted
+    # instead of the current ones".  (The controls run beside the replay.)
+    controls = (("MCAuth_neg.cfg", DEV, None), ("MCAuth_neg_own.cfg", "Neg_OwnPayerUnchecked", "ChangeCovered"),
+                ("MCAuth_neg_box.cfg", "Neg_BoxTrustsLabel", "BoxBinds"), ("MCAuth_neg_gp.cfg", "Neg_GasPayerFallbackInHash", "GasPayerFieldBinds"),
+                ("MCAuth_neg_scheme.cfg", "Neg_SchemeBlind", "SchemeBinds"), ("MCAuth_neg_stale.cfg", "Neg_StaleSigners", "EffectOnlyIfAuthorized"))
+
+    def control(i):
+        time.sleep(0.3 * i)                                 # (distinct TLC meta directories)
+        return ctx.tlc("MCAuth", controls[i][0], workers=2, timeout=600, expect_ok=False, heap="1g")
+    pool = concurrent.futures.ThreadPoolExecutor(len(controls))
+    negs = [pool.submit(control, i) for i in range(len(controls))]
     # ---- every case on the real code
     files, summ = ctx.replay("auth", graph=dot, shards=16, maxlen=60, timeout=2400)
     ok = ctx.validate("TraceAuth", "TraceAuth.cfg", files, what="every enumerated case on real nodes", timeout=2400)
+    for (cfg, model, clause), fu in zip(controls, negs):
+        n2 = fu.result()
+        if model == DEV:
+            ctx.extra["negative_control_per_signature_weights_violates"] = n2["inv"]
+        else:
+            ctx.extra["negative_control_%s_violates" % model] = n2["inv"]
+        if not n2["inv"] or (clause and n2["inv"] != clause):
+            raise vlib.Broken("negative control: the model %s must violate %s\n%s" % (model, clause or "a clause", n2["out"][-2000:]))
+    pool.shutdown()
     st = stats(files)
     ctx.extra["real_code_outcomes"] = st
-    ctx.extra["cases_in_graph"] = summ["graph_edges"] - r["distinct"] // 2
+    ctx.extra["cases_in_graph"] = sum(1 for ln in open(dot) if 'label="Offer' in ln)
     ctx.extra["distinct_transitions_replayed"] = summ["graph_edges"] if ok else 0
     ctx.extra["transitions_in_graph"] = summ["graph_edges"]
     ctx.cov["samples"] = summ["samples"]
     ctx.cov["exhaustive"] = True
-    if not (st["packaged"] and st["refused"] and st["validator_honest_ok"] and st["validator_forged"]):
+    if ok and not (st["packaged"] and st["refused"] and st["validator_honest_ok"] and st["validator_forged"] and st["gaspayer_member_absent_packaged"]
+                   and st["gaspayer_member_changed_after_signing"] and st["signature_made_in_another_scheme"] and st["stabilised"]
+                   and st["offered_while_signers_differ_from_stable_block"] and st["of_these_packaged"]):
         raise vlib.Broken("vacuous run: %s" % st)
     # ---- random large accounts (up to 100 signers, weights 1..100, up to 110 signatures), same monitor
-    n = 60 if ctx.quick() else 600
+    n = 110 if ctx.quick() else 1100
     rnd = ctx.path("traces", "auth-rand.ndjson")
     ctx.drive("auth-rand", ["-out", rnd, "-seed", ctx.seed, "-n", n], timeout=1500,
               env={"VERIF_SCRATCH_DIR": ctx.path("work", "auth-rand", ".keep")[:-6]})
     ctx.validate("TraceAuth", "TraceAuth.cfg", [rnd], what="random large multi-signature accounts", timeout=1500)
     ctx.extra["random_large_account_outcomes"] = stats([rnd])
     ctx.assumptions += [
-        "a signature is abstracted to (signer, encoding variant, made before/after the field change); real signatures are produced with real keys over "
-        "the real signing hashes (DefaultSigner / ReimbursementTxSigner / GasPayerSigner), variant 1 = s -> n-s",
+        "a signature is abstracted to (account and signer, encoding variant, signing scheme, made before/after the field change); real signatures are "
+        "produced with real keys over the real signing hashes (DefaultSigner / ReimbursementTxSigner / GasPayerSigner), variant 1 = s -> n-s; a payer-scheme "
+        "signature placed in the sender list is made over the transaction without sender signatures",
+        "one field changes per case (a changed gasPayer member is that field); the form of a transaction is what its format says: payer signatures present = reimbursed",
+        "the mining node of a behaviour is told that a block is stable through its store (SetStableBlock), the validating node through DPoVP.InsertConfirms "
+        "with the signatures of three further deputies; only the block that configures the sender (and a Stabilise step's head) is stable",
         "the validating node is offered, for a refused transaction, the block of a dishonest deputy: header roots obtained by mining a properly signed "
         "twin with the same content, transaction replaced, header re-signed with the deputy's key; the twin's own block must be accepted (harness check)",
         "exact gas fees are not checked here (C05): the payer's balance must fall, the recipient's must rise by the signed amount",
